@@ -51,6 +51,10 @@ def _iter_next(ex, itp):
 
 
 def _iter_step(ex, it):
+    if isinstance(it, Ptr):
+        r, it2 = _iter_step(ex, ex.deref_read(it))
+        ex.deref_write(it, it2)
+        return r, it
     if not isinstance(it, Agg): raise Unsupported('iterator %r' % (it,))
     k = it.kind
     if k == 'SliceIter':
@@ -101,6 +105,11 @@ def _iter_step(ex, it):
         rb, b2 = _iter_step(ex, b)
         if rb.discr == 0: return NONE, Agg('Zip', (a2, b2))
         return some(Agg('tuple', (ra.pay['Some'][0], rb.pay['Some'][0]))), Agg('Zip', (a2, b2))
+    if k == 'Map':
+        inner, f = it.f
+        r, inner2 = _iter_step(ex, inner)
+        if r.discr == 0: return NONE, Agg('Map', (inner2, f))
+        return some(ex.call_callable(f, [r.pay['Some'][0]])), Agg('Map', (inner2, f))
     if k == 'Rev':
         inner = it.f[0]
         if inner.kind == 'SliceIter':
@@ -115,6 +124,7 @@ def _iter_step(ex, it):
 
 
 def _drain(ex, it):
+    if isinstance(it, Ptr): it = ex.deref_read(it)
     out = []
     while True:
         r, it = _iter_step(ex, it)
@@ -218,6 +228,45 @@ def call(ex, fr, c, a):
         if meth == 'skip': _note(ex, 'Iterator::skip'); return Agg('Skip', (a[0], a[1]))
         if meth == 'take': _note(ex, 'Iterator::take'); return Agg('Take', (a[0], a[1]))
         if meth == 'zip': _note(ex, 'Iterator::zip'); return Agg('Zip', (a[0], a[1]))
+        if meth == 'map': _note(ex, 'Iterator::map(closure)'); return Agg('Map', (a[0], a[1]))
+        if meth == 'fold':
+            _note(ex, 'Iterator::fold(closure)'); acc = a[1]
+            for v in _drain(ex, a[0]): acc = ex.call_callable(a[2], [acc, v])
+            return acc
+        if meth == 'for_each':
+            _note(ex, 'Iterator::for_each(closure)')
+            for v in _drain(ex, a[0]): ex.call_callable(a[1], [v])
+            return UNIT
+        if meth in ('position', 'any', 'all'):
+            _note(ex, 'Iterator::%s(closure)' % meth)
+            items = _drain(ex, a[0])
+            preds = [conc(ex.call_callable(a[1], [v])) for v in items]
+            if meth == 'any':
+                return conc(z3.simplify(z3.Or(*[to_z3(p) for p in preds]))) if preds else False
+            if meth == 'all':
+                return conc(z3.simplify(z3.And(*[to_z3(p) for p in preds]))) if preds else True
+            res = NONE
+            for i in range(len(items) - 1, -1, -1):
+                p = preds[i]
+                if not is_sym(p): res = some(i) if p else res
+                else: res = merge_val(p, some(i), res)
+            return res
+        if meth in ('max_by', 'min_by'):
+            _note(ex, 'Iterator::%s(closure)' % meth)
+            items = _drain(ex, a[0])
+            if not items: return NONE
+            best = items[0]
+            for x in items[1:]:
+                pb, px = ex.new_root(best, 'cmp'), ex.new_root(x, 'cmp')
+                o = ex.call_callable(a[1], [pb, px])
+                ex.heap.pop(pb.oid, None); ex.heap.pop(px.oid, None)
+                d = conc(o.discr)
+                # max_by keeps the LAST of several maxima (replace unless best > x); min_by keeps the FIRST minimum (replace only if best > x)
+                if meth == 'max_by': rep = (d != 1) if not is_sym(d) else (d != 1)
+                else: rep = (d == 1) if not is_sym(d) else (d == 1)
+                if is_sym(rep): best = merge_val(z3.simplify(rep), x, best)
+                elif rep: best = x
+            return some(best)
         if meth == 'sum':
             _note(ex, 'Iterator::sum'); tot = Fraction(0)
             for v in _drain(ex, a[0]): tot = ex.binop('Add', tot, _val(ex, v))
@@ -382,6 +431,22 @@ def call(ex, fr, c, a):
             old = ex.deref_read(a[0]); ex.deref_write(a[0], some(a[1])); return old
         if f == 'take':
             old = ex.deref_read(a[0]); ex.deref_write(a[0], NONE); return old
+    if c == '<f64 as PartialOrd>::partial_cmp':
+        _note(ex, 'f64::partial_cmp (reals: always Some)')
+        x, y = conc(ex.deref_read(a[0])), conc(ex.deref_read(a[1]))
+        if is_sym(x) or is_sym(y):
+            x, y = R(x), R(y)
+            d = z3.If(x < y, z3.IntVal(-1), z3.If(x == y, z3.IntVal(0), z3.IntVal(1)))
+            return some(EnumV('Ordering', conc(z3.simplify(d)), {'Less': (), 'Equal': (), 'Greater': ()}))
+        return some(EnumV('Ordering', -1 if x < y else (0 if x == y else 1), {'Less': (), 'Equal': (), 'Greater': ()}))
+    m = re.fullmatch(r'(?:std::option::)?Option::<.*>::(map|map_or|and_then)::<.*>', c)
+    if m:
+        _note(ex, 'Option::%s(closure)' % m.group(1)); r = a[0]; d = conc(r.discr)
+        if m.group(1) == 'map':
+            if not is_sym(d): return some(ex.call_callable(a[1], [r.pay['Some'][0]])) if d == 1 else NONE
+            if 'Some' not in r.pay: return NONE
+            return merge_val(d == 1, some(ex.call_callable(a[1], [r.pay['Some'][0]])), NONE)
+        raise Unsupported('Option::' + m.group(1))
     if re.fullmatch(r'<f64 as Default>::default', c): return Fraction(0)
     if re.fullmatch(r'<usize as Default>::default', c): return 0
     if re.fullmatch(r'<bool as Default>::default', c): return False
